@@ -290,3 +290,192 @@ Proof.
   clear. induction l as [|x l IH]; [reflexivity|]. cbn [rev]. rewrite maxl_app, IH, !maxl_cons.
   change (maxl []) with (-1). pose proof (maxl_ge l). lia.
 Qed.
+
+(** ---- [smallest_missing_in_interval] is exact w.r.t. [seen] ---- *)
+
+Lemma ones_bit n i : 0 <= n -> 0 <= i -> Z.testbit (2 ^ n - 1) i = (i <? n).
+Proof.
+  intros Hn Hi. replace (2 ^ n - 1) with (Z.ones n) by (rewrite Z.ones_equiv; lia).
+  destruct (i <? n) eqn:E.
+  - apply Z.ones_spec_low. lia.
+  - apply Z.ones_spec_high. lia.
+Qed.
+
+(** bits of the mask built by [smallest_missing_in_interval] *)
+Definition qmask (so rl : Z) : Z :=
+  if rl =? BITS then W_MOD - 1 else Z.shiftl (2 ^ rl - 1) so mod W_MOD.
+
+Lemma qmask_bit so rl i :
+  0 <= so < 128 -> 0 < rl <= 128 -> 0 <= i ->
+  Z.testbit (qmask so rl) i =
+  (i <? 128) && (if rl =? 128 then true else (so <=? i) && (i <? so + rl)).
+Proof.
+  intros Hso Hrl Hi. unfold qmask, W_MOD, BITS.
+  destruct (rl =? 128) eqn:E.
+  - rewrite ones_bit by lia. rewrite andb_true_r. reflexivity.
+  - destruct (i <? 128) eqn:I; cbn [andb].
+    + rewrite Z.mod_pow2_bits_low by lia. rewrite Z.shiftl_spec by lia.
+      destruct (so <=? i) eqn:S; cbn [andb].
+      * rewrite ones_bit by lia. destruct (i - so <? rl) eqn:A; destruct (i <? so + rl) eqn:B; lia.
+      * apply Z.testbit_neg_r. lia.
+    + apply Z.mod_pow2_bits_high. lia.
+Qed.
+
+Lemma qmask_nonneg so rl : 0 <= so -> 0 <= rl -> 0 <= qmask so rl.
+Proof.
+  intros. unfold qmask, W_MOD, BITS. destruct (rl =? 128).
+  - assert (0 < 2 ^ 128) by (apply Z.pow_pos_nonneg; lia). lia.
+  - apply Z.mod_pos_bound. apply Z.pow_pos_nonneg; lia.
+Qed.
+
+Lemma gaps_bit w mask i : 0 <= i ->
+  Z.testbit (Z.land (Z.lnot w) mask) i = negb (Z.testbit w i) && Z.testbit mask i.
+Proof. intros. rewrite Z.land_spec, Z.lnot_spec by lia. reflexivity. Qed.
+
+Lemma seen_highest d m : m = next d - 1 -> seen d m = true.
+Proof. intros ->. apply seen_true_iff. lia. Qed.
+
+Lemma seen_left d m : m < next d -> WINDOW_SIZE <= next d - 1 - m -> seen d m = true.
+Proof. intros. apply seen_true_iff. lia. Qed.
+
+Lemma seen_bit d m : m < next d -> Z.testbit (window d) (next d - 2 - m) = true -> seen d m = true.
+Proof. intros. apply seen_true_iff. tauto. Qed.
+
+Lemma unseen_bit d m :
+  m < next d - 1 -> next d - 1 - m < WINDOW_SIZE ->
+  Z.testbit (window d) (next d - 2 - m) = false -> seen d m = false.
+Proof.
+  intros A B C. destruct (seen d m) eqn:S; [|reflexivity].
+  apply seen_true_iff in S. destruct S as [_ [S|[S|S]]]; [lia|lia|congruence].
+Qed.
+
+Theorem smallest_missing_exact : forall d l u r,
+  0 <= l ->
+  smallest_missing d l u = Some r ->
+  match r with
+  | None => forall m, l < m < u -> seen d m = true
+  | Some q => l < q < u /\ seen d q = false /\ forall m, l < m < q -> seen d m = true
+  end.
+Proof.
+  intros d l u r Hl. unfold smallest_missing.
+  destruct ((l <=? u) && (1 <=? next d) && (u <=? next d - 1)) eqn:Pre; [|discriminate].
+  apply andb_true_iff in Pre as [Pre P3]. apply andb_true_iff in Pre as [P1 P2].
+  cbv zeta.
+  set (h := next d - 1). set (lb := l + 1). set (ub := Z.max (u - 1) 0).
+  set (so := Z.max (h - ub) 1 - 1). set (eo := Z.max (h - lb) 0).
+  set (rl := Z.min (Z.max (eo - so) 0) BITS).
+  fold (qmask so rl).
+  assert (Hh : next d = h + 1) by (unfold h; lia).
+  destruct (BITS <=? so) eqn:E1.
+  { intros H; injection H as <-. intros m Hm. apply seen_left; unfold WINDOW_SIZE, BITS in *; lia. }
+  destruct (rl =? 0) eqn:E2.
+  { intros H; injection H as <-. intros m Hm.
+    destruct (Z.eq_dec m h) as [->|N]; [apply seen_highest; lia|].
+    unfold rl, BITS in E2. exfalso. lia. }
+  assert (Hso : 0 <= so < 128) by (unfold BITS in E1; lia).
+  assert (Hrl : 0 < rl <= 128) by (unfold rl, BITS in *; lia).
+  assert (Heo : eo = h - lb /\ so < eo) by (unfold rl, BITS in *; lia).
+  destruct Heo as [Heo Hse].
+  assert (Hub : u >= 1 /\ ub = u - 1). { unfold rl, eo, so, ub, lb, BITS in *. clear Hse Heo Hrl Hso. first [lia | idtac "A"; clearbody h; lia | idtac "B"; clear rl eo so ub lb; lia]. }
+  destruct Hub as [Hu1 Hub].
+  assert (Hso' : so = h - ub - 1 \/ (so = 0 /\ ub = h)) by (unfold so; lia).
+  set (gaps := Z.land (Z.lnot (window d)) (qmask so rl)).
+  assert (Hg0 : 0 <= gaps).
+  { unfold gaps. apply Z.land_nonneg. right. apply qmask_nonneg; lia. }
+  assert (Hbit : forall i, 0 <= i -> Z.testbit gaps i =
+            negb (Z.testbit (window d) i) &&
+            ((i <? 128) && (if rl =? 128 then true else (so <=? i) && (i <? so + rl)))).
+  { intros i Hi. unfold gaps. rewrite gaps_bit by lia. rewrite qmask_bit by lia. reflexivity. }
+  (* every packet of the interval whose gap bit is clear has been seen *)
+  assert (Hseen : forall m, lb <= m <= ub -> Z.testbit gaps (h - 1 - m) = false -> seen d m = true).
+  { intros m Hm Hb.
+    destruct (Z.le_gt_cases 128 (h - 1 - m)) as [A|A].
+    - apply seen_left; unfold WINDOW_SIZE, BITS; lia.
+    - rewrite Hbit in Hb by lia.
+      destruct (h - 1 - m <? 128) eqn:B; [|lia].
+      assert (C : (if rl =? 128 then true else (so <=? h - 1 - m) && (h - 1 - m <? so + rl)) = true).
+      { destruct (rl =? 128) eqn:R; [reflexivity|].
+        apply andb_true_iff. unfold rl, BITS in *. split; lia. }
+      rewrite C in Hb. cbn [andb] in Hb. rewrite andb_true_r in Hb.
+      apply seen_bit; [lia|]. replace (next d - 2 - m) with (h - 1 - m) by lia.
+      destruct (Z.testbit (window d) (h - 1 - m)); [reflexivity|discriminate]. }
+  destruct (gaps =? 0) eqn:G0.
+  - (* no gap at all *)
+    apply Z.eqb_eq in G0.
+    destruct (h <? 0) eqn:E3; [lia|]. rewrite Z.sub_0_r.
+    destruct (h <=? ub) eqn:E4; [lia|].
+    intros H; injection H as <-. intros m Hm. apply Hseen; [unfold lb; lia|].
+    rewrite G0. apply Z.bits_0.
+  - assert (Hgp : 0 < gaps) by lia.
+    set (kk := Z.log2 gaps).
+    assert (Hk0 : 0 <= kk) by apply Z.log2_nonneg.
+    assert (Hk1 : Z.testbit gaps kk = true) by (apply Z.bit_log2; exact Hgp).
+    assert (Hk2 : forall j, kk < j -> Z.testbit gaps j = false) by (intros j Hj; apply Z.bits_above_log2; lia).
+    pose proof Hk1 as Hk3. rewrite Hbit in Hk3 by lia.
+    apply andb_true_iff in Hk3 as [Kw Km]. apply andb_true_iff in Km as [K128 Kr].
+    assert (Kw' : Z.testbit (window d) kk = false) by (destruct (Z.testbit (window d) kk); [discriminate|reflexivity]).
+    assert (Krange : kk < eo /\ kk < 128).
+    { split; [|lia]. destruct (rl =? 128) eqn:R.
+      - unfold rl, BITS in R. lia.
+      - apply andb_true_iff in Kr. unfold rl, BITS in *. lia. }
+    destruct (h <? kk + 1) eqn:E3; [unfold lb in *; lia|].
+    destruct (h - (kk + 1) <=? ub) eqn:E4; intros H; injection H as <-.
+    + split; [unfold lb in *; lia|]. split.
+      * apply unseen_bit; [lia|unfold WINDOW_SIZE, BITS; lia|].
+        replace (next d - 2 - (h - (kk + 1))) with kk by lia. exact Kw'.
+      * intros m Hm. apply Hseen; [unfold lb; lia|]. apply Hk2. lia.
+    + intros m Hm. apply Hseen; [unfold lb; lia|]. apply Hk2. lia.
+Qed.
+
+Theorem smallest_missing_total : forall d l u,
+  0 <= l -> l <= u -> 1 <= next d -> u <= next d - 1 -> smallest_missing d l u <> None.
+Proof.
+  intros d l u Hl H1 H2 H3. unfold smallest_missing.
+  destruct ((l <=? u) && (1 <=? next d) && (u <=? next d - 1)) eqn:Pre.
+  2:{ apply andb_false_iff in Pre as [Pre|Pre]; [apply andb_false_iff in Pre as [Pre|Pre]|]; lia. }
+  cbv zeta.
+  set (h := next d - 1). set (lb := l + 1). set (ub := Z.max (u - 1) 0).
+  set (so := Z.max (h - ub) 1 - 1). set (eo := Z.max (h - lb) 0).
+  set (rl := Z.min (Z.max (eo - so) 0) BITS).
+  fold (qmask so rl).
+  destruct (BITS <=? so) eqn:E1; [discriminate|].
+  destruct (rl =? 0) eqn:E2; [discriminate|].
+  set (gaps := Z.land (Z.lnot (window d)) (qmask so rl)).
+  destruct (gaps =? 0) eqn:G0.
+  - destruct (h <? 0) eqn:E3; [lia|]. destruct (h - 0 <=? ub); discriminate.
+  - assert (Hso : 0 <= so < 128) by (unfold BITS in E1; lia).
+    assert (Hrl : 0 < rl <= 128) by (unfold rl, BITS in *; lia).
+    assert (Hg0 : 0 <= gaps) by (apply Z.land_nonneg; right; apply qmask_nonneg; lia).
+    assert (Hk1 : Z.testbit gaps (Z.log2 gaps) = true) by (apply Z.bit_log2; lia).
+    pose proof (Z.log2_nonneg gaps) as Hk0.
+    unfold gaps at 1 in Hk1. rewrite gaps_bit, qmask_bit in Hk1 by lia.
+    apply andb_true_iff in Hk1 as [_ Km]. apply andb_true_iff in Km as [K128 Kr].
+    assert (Z.log2 gaps < eo).
+    { destruct (rl =? 128) eqn:R.
+      - unfold rl, BITS in R. lia.
+      - apply andb_true_iff in Kr. unfold rl, BITS in *. lia. }
+    destruct (h <? Z.log2 gaps + 1) eqn:E3; [unfold eo, lb in *; lia|].
+    destruct (h - (Z.log2 gaps + 1) <=? ub); discriminate.
+Qed.
+
+Lemma mem_rev x l : mem x (rev l) = mem x l.
+Proof.
+  induction l as [|y l IH]; [reflexivity|]. cbn [rev]. rewrite mem_app, IH. cbn [mem].
+  rewrite orb_false_r. apply orb_comm.
+Qed.
+
+Lemma maxl_rev l : maxl (rev l) = maxl l.
+Proof.
+  induction l as [|x l IH]; [reflexivity|]. cbn [rev]. rewrite maxl_app, IH, !maxl_cons.
+  change (maxl []) with (-1). pose proof (maxl_ge l). lia.
+Qed.
+
+Theorem seen_spec : forall l d ds,
+  Forall (fun p => 0 <= p) l ->
+  inserts init l = Some (d, ds) ->
+  forall m, 0 <= m -> seen d m = mem m l || (m + WINDOW_SIZE <=? maxl l).
+Proof.
+  intros l d ds HF H m Hm.
+  destruct (inserts_char l init [] d ds HF spec_init H) as [[_ Hs] _].
+  rewrite (Hs m Hm), app_nil_r, mem_rev, maxl_rev. reflexivity.
+Qed.
